@@ -467,6 +467,9 @@ func (i *interpreter) equalsV(t types.Type, x, y value) value {
 	case array:
 		y := y.(array)
 		tElt := t.Underlying().(*types.Array).Elem()
+		if b, ok := tElt.Underlying().(*types.Basic); ok && b.Kind() == types.Uint8 && len(x) == len(y) && i.hash != nil {
+			return i.seqEq([]value(x), []value(y))
+		}
 		var acc value = true
 		for k := range x {
 			acc = i.andV(acc, i.equalsV(tElt, x[k], y[k]))
@@ -584,15 +587,7 @@ func (i *interpreter) strEq(x, y value) value {
 	if strLen(x) != strLen(y) {
 		return false
 	}
-	xb, yb := strBytes(x), strBytes(y)
-	var acc value = true
-	for k := range xb {
-		acc = i.andV(acc, i.equalsV(nil, xb[k], yb[k]))
-		if acc == false {
-			return false
-		}
-	}
-	return acc
+	return i.seqEq(strBytes(x), strBytes(y))
 }
 
 // bytesLess returns x < y (lexicographic) for byte sequences with possibly symbolic bytes.
